@@ -18,6 +18,6 @@ PROP = dict(
           "different order kinds among the flattened fields, and a pair of keys separated only by a later field. NonSingularFields is asked about all keys and adjacent pairs between the pairwise comparisons and the sorts; every Less must stay what it was. Numeric values include plain numbers beyond float32 precision and range and zero-padded integers. One case in five uses a unit projection (ParseWithUnit; results projected per measurement or as a whole; .unit is a first-observation field). Prefixed numbers followed by a unit word (10Mbit, 2Gbit/s) are numbers; texts without a digit are not. Distinct = distinct case JSON."),
     assumptions=["reference comparator reflects the documented orders"],
     units=[
-        R("rapid", "A", "./c09", "TestC09Rapid", (2500, 8), (60000, 16)),
+        R("rapid", "A", "./c09", "TestC09Rapid", (3000, 16), (60000, 16)),
     ],
 )
